@@ -343,8 +343,10 @@ def tree_cases(prop, tier, hibernation_values=(False,), extra=None):
 
     def add(name, **params):
         params.setdefault("props", [prop])
+        # vacuous_ok: the shared catalogue contains shapes in which a given property has nothing to say (e.g. C11 on an LHS root
+        # without children); the per-property totals in the evidence show where its obligations were actually evaluated
         cs.append(dict(name=name, fn=h_step, params=params, profile="fp", budget_s=1200 if tier == "quick" else 3600,
-                       max_paths=400000, oblig_timeout_s=60, weight=len(str(params.get("shape")))))
+                       max_paths=400000, oblig_timeout_s=60, weight=len(str(params.get("shape"))), vacuous_ok=True))
 
     two = [("ea", "cma"), ("ea", "local"), ("de", "ea"), ("shade", "cma"), ("lhs", "cma"), ("sobol", "de"), ("ea", "shade")]
     three = [("ea", "ea", "cma"), ("de", "ea", "local"), ("ea", "de", "cma")]
